@@ -116,7 +116,7 @@ def main():
     rej = tr.tagged.get("REJECT")
     if rej:
         line = rej[0]["line"]
-        evs = open(ev).read().splitlines()
+        evs = open(ev).read().split("\n")
         c.report({"kind": "trace", "what": "recorded token stream / table violates a clause of LexTrace (C14)", "line": line,
                   "event": json.loads(evs[line - 1]) if line - 1 < len(evs) else None})
     elif not tr.ok:
